@@ -241,6 +241,16 @@ func (c *codegen) emitStoreStructField(i int) {
 	emit.Opcodes(c.prog.BinWriter, opcode.ROT, opcode.SETITEM)
 }
 
+// storedStruct returns the expression to load the structure from when the field
+// n (x.f) is stored. (*p).f = v is p.f = v: the value of *p is a copy of the
+// structure, the store has to reach the structure p points to.
+func storedStruct(n *ast.SelectorExpr) ast.Expr {
+	if star, ok := ast.Unparen(n.X).(*ast.StarExpr); ok {
+		return star.X
+	}
+	return n.X
+}
+
 // emitStoreSelectorExpr stores RHS into a selector expression (x.f).
 // Assumes the RHS is already on the stack before this call.
 func (c *codegen) emitStoreSelectorExpr(n *ast.SelectorExpr) {
@@ -255,13 +265,7 @@ func (c *codegen) emitStoreSelectorExpr(n *ast.SelectorExpr) {
 		c.prog.Err = fmt.Errorf("nested selector assigns not supported yet")
 		return
 	}
-	// (*p).f = v is p.f = v: the value of *p is a copy of the struct, the
-	// store has to reach the struct p points to.
-	x := n.X
-	if star, ok := ast.Unparen(x).(*ast.StarExpr); ok {
-		x = star.X
-	}
-	ast.Walk(c, x)                         // load the struct
+	ast.Walk(c, storedStruct(n))           // load the struct
 	path := pathToField(strct, n.Sel.Name) // get path to field
 	if path == nil {
 		c.prog.Err = fmt.Errorf("field %q not found in type %s", n.Sel.Name, typ)
@@ -356,7 +360,7 @@ func (c *codegen) emitTupleAssign(n *ast.AssignStmt) {
 				c.prog.Err = fmt.Errorf("field %q not found in type %s", t.Sel.Name, typ)
 				return
 			}
-			ast.Walk(c, t.X)
+			ast.Walk(c, storedStruct(t))
 			c.emitLoadField(path[1:])
 			field[i] = path[0]
 			kept[i] = 1
